@@ -851,41 +851,6 @@ HighPriorityASDUQueue_resetConnectionQueue(HighPriorityASDUQueue self)
 #endif
 }
 
-static bool
-HighPriorityASDUQueue_hasUnconfirmedIMessages(HighPriorityASDUQueue self)
-{
-    bool retVal = false;
-
-    if (self->entryCounter != 0)
-    {
-        uint8_t* entryPtr = self->firstEntry;
-
-        struct sMessageQueueEntryInfo entryInfo;
-
-        while (entryPtr)
-        {
-            memcpy(&entryInfo, entryPtr, sizeof(struct sMessageQueueEntryInfo));
-
-            if (entryInfo.entryState == QUEUE_ENTRY_STATE_SENT_BUT_NOT_CONFIRMED)
-            {
-                retVal = true;
-                break;
-            }
-
-            if (entryPtr == self->lastEntry)
-                break;
-
-            /* move to next entry */
-            if (entryPtr == self->lastInBufferEntry)
-                entryPtr = self->buffer;
-            else
-                entryPtr = entryPtr + sizeof(struct sMessageQueueEntryInfo) + entryInfo.size;
-        }
-    }
-
-    return retVal;
-}
-
 /***************************************************
  * RedundancyGroup
  ***************************************************/
@@ -3527,9 +3492,6 @@ MasterConnection_hasUnconfirmedMessages(MasterConnection self)
     if (self->lowPrioQueue)
     {
         if (MessageQueue_hasUnconfirmedIMessages(self->lowPrioQueue))
-            return true;
-
-        if (HighPriorityASDUQueue_hasUnconfirmedIMessages(self->highPrioQueue))
             return true;
     }
 
